@@ -5,6 +5,7 @@ import Jrpc.Frames
 import Jrpc.Errors
 import Jrpc.Call
 import Jrpc.Reader
+import Jrpc.Locks
 /-
   Jrpc.Ops — dispatch of driver operations onto the model's executable definitions.
 -/
@@ -248,6 +249,29 @@ def opRendezvous (j : Json) : R Json := do
   let (_, hs) := Reader.trun [] es
   return Json.mkObj [("handoffs", Json.arr (hs.map (fun h => Json.arr #[(h.uuid : Json), (h.reader : Json)])).toArray)]
 
+/-- Replays an event list through a `step?`; answers how far it got. -/
+def replay {σ ε} (step? : σ → ε → Option σ) (s : σ) (es : List ε) : σ × Option Nat :=
+  let rec go (s : σ) (i : Nat) : List ε → σ × Option Nat
+    | [] => (s, none)
+    | e :: es => match step? s e with
+      | some s' => go s' (i + 1) es
+      | none => (s, some i)
+  go s 0 es
+
+/-- op "locks": the w.begin / w.end events of one connection, in trace order. -/
+def opLocks (j : Json) : R Json := do
+  let es ← (arrD j "events").mapM (fun e => do
+    let site ← str e "site"
+    match (← str e "e") with
+    | "begin" => return Locks.Ev.begin site
+    | "end" => return Locks.Ev.done site
+    | "swap" => return Locks.Ev.swap site
+    | "chunk" => return Locks.Ev.chunk site
+    | x => throw s!"bad lock event {x}")
+  let (s, refused) := replay Locks.step? {} es
+  return Json.mkObj [("accepted", refused.isNone), ("refusedAt", optJ (fun (n : Nat) => (n : Json)) refused),
+                     ("monitor", Locks.sectionsOK none es), ("sections", s.msgNo), ("generation", s.gen)]
+
 def run (j : Json) : R Json := do
   match (← str j "op") with
   | "http" => opHttp j
@@ -260,6 +284,7 @@ def run (j : Json) : R Json := do
   | "call" => opCall j
   | "reader" => opReader j
   | "rendezvous" => opRendezvous j
+  | "locks" => opLocks j
   | "authhttp" => opAuthHttp j
   | op => throw s!"unknown op {op}"
 
